@@ -18,20 +18,32 @@ What is proved here (kernel-checked, no bound on sizes, histories, runes, colour
   every command list of every draw is admissible (`LayerB.draw_admits`).
 * `cup_accepted_all` (C09) — the expansion of `cup` is accepted by the strict tokenizer for ALL rows and columns.
 
-`_partial` because of what is assumed rather than proved:
-  (1) `CfgB.fx : CapsFx c rc` — the effect on the emulator of the bytes rendered for each command kind.  For the class
-      `XtermLike` the following parts are proved (`Lemmas/LayerBXterm.lean`, `Lemmas/LayerBCaps.lean`): cursor addressing
-      for all positions (`xl_goto_effect`), cursor hiding (`xl_hide_effect`), attribute reset in all seven forms
-      (`xl_attrOff_effect`), **the whole style block** for every style without colours / underline / hyperlink and any
-      combination of bold, blink, reverse, dim, italic, strike-through (`xl_setPen_attrs_effect`: pen = `penOf rc s`
-      exactly, i.e. `CapsFx.pen` restricted to such styles), every single attribute / underline-style / colour-reset / hyperlink-off string
-      (`bold_effect` … `urlClose_effect`), and the closed forms of every parameterised expansion for all parameter values
-      (`parm_cup`, `parm_setaf256`, `parm_setab256`, `parm_setfgbg256`, `parm_setfRGB`, … ) which the emulator lemmas
-      `sgr_fg_256_effect`, `sgr_*_rgb_effect`, … consume.  NOT yet assembled: colours and underline inside `setPen`, `showCursor`, `clear`: that composition is validated on every run by the correspondence + reference emulator.
+* **`xl_show_faithful_bytes`, `xl_sync_faithful_bytes`, `xl_output_wellformed`, `xl_rep_after`** and their database instances
+  **`db_show_faithful_bytes`, `db_sync_faithful_bytes`, `db_output_wellformed`** — the same statements WITHOUT the hypothesis
+  `CfgB` for every terminal description in `XtermLike` (the 22 database entries; also those entries after LookupTerminfo
+  has added the direct-colour strings, `tiDirect_xl`), for the configuration the driver builds (`drawCfgOf`/`renderCfgOf`).
+  `CapsFx` is proved for the class in `Lemmas/LayerBXtermFx.lean` (`xl_capsFx`): `xl_setPen_effect` (the whole style block
+  for EVERY style without hyperlink: sgr0, sendFgBg with default / reset / palette / direct / fitted colours through
+  setaf, setab, setfgbg, the three RGB strings, bold, underline colour indexed / direct / reset + smul + the four underline
+  styles, reverse, blink, dim, italic, strike, OSC 8 off → pen = `penOf rc s` exactly), `xl_show_effect` (the four `cnorm`
+  forms + DECSCUSR for cursor styles 0…6), `xl_clear_effect` (sgr0 + OSC 8 off + colours + either `clear` form: every cell a
+  known blank with the style's background, cursor home).  Non-vacuity: `bDemo`, `bDirect` (kernel-evaluated emulator grid).
+
+The generic theorems keep the suffix `_partial` because they are relative to `CfgB`; for the `xl_`/`db_` theorems what remains
+assumed / outside is:
+  (1) `FitOk rc` — the colour-fitting function (go-colorful's nearest-colour search, an external function, parameter
+      `RenderCfg.fit`) returns an entry of the screen's palette.  Nothing else is assumed about it: the theorem holds for
+      whatever palette entry it picks, and `penOf` names that entry.  `fitOk_findColor` / `xl_fitOk_findColor`: tcell's own
+      `FindColor` scan (model `Color.findColor`) over the screen's palette satisfies it for ANY colour distance, so what is
+      really assumed is only that the `fit` table the model is run with is that scan (checked per run by the correspondence).
   (2) hyperlinks (`Style.url ≠ ""`), cursor-colour requests, the four corner-trick entries and terminals without a
-      hide-cursor string are outside the domain (`OpB`, `CfgB`).
+      hide-cursor string are outside the domain (`OpB`, `XtermLike`); terminals outside `XtermLike` (27 database entries,
+      see `db_xtermlike`) are covered only by the generic `_partial` theorems.
   (3) the bytes written by Init (engage) are not modelled here: the emulator state `e0` at the start is any state with
       the parser in the ground state, UTF-8, no alternate character set, replace mode and no complaint (`Good`).
+  (4) `XtermLike` asks, beyond the standard forms, that the direct-colour strings come all three or not at all and that the
+      indexed / direct underline-colour strings come together (true of every entry and of what tcell synthesises; `penOf`
+      would otherwise have to name which of the strings exist).
 -/
 import Tcell.Lemmas.LayerBWorld
 import Tcell.Lemmas.LayerBXterm
@@ -333,6 +345,21 @@ theorem cfgB_of_ti (ti : Terminfo) (hx : XtermLike ti = true) (lg wg fz tc : Boo
       simp_all
   · show (!ti.hideCursor.isEmpty) = true
     rw [a5]; decide
+
+
+/-- `FitOk` for the configuration of an `XtermLike` entry whose colour fit is tcell's `FindColor` over the screen's palette
+(any colour distance): not an assumption about the library -/
+theorem xl_fitOk_findColor {α : Type} (m : Color.Metric α) (ti : Terminfo) (hx : XtermLike ti = true) (tc : Bool) (fit0 : Nat → Nat) :
+    FitOk (renderCfgOf ti tc (fun c => Color.findColor m c (screenPalette (renderCfgOf ti tc (fun _ => 0) fit0))) fit0) := by
+  apply fitOk_findColor m
+  · show Render.nColors (renderCfgOf ti tc (fun _ => 0) fit0) ≠ 0
+    have h1 := xl_tiOk hx
+    simp only [tiOk, Bool.and_eq_true, beq_iff_eq, and_assoc] at h1
+    obtain ⟨_, _, _, _, _, _, _, _, _, _, _, _, a13, _⟩ := h1
+    simp only [Bool.or_eq_true, Bool.and_eq_true, beq_iff_eq, decide_eq_true_eq, and_assoc] at a13
+    show (if ti.colors > 256 then 256 else ti.colors.toNat) ≠ 0
+    rcases a13 with ⟨hc, _⟩ | ⟨hc, _⟩ <;> split <;> omega
+  · intro c; rfl
 
 section
 variable (ti : Terminfo) (hx : XtermLike ti = true) (lg wg fz tc : Bool) (fit fit0 : Nat → Nat)
